@@ -44,6 +44,8 @@ pub enum Pos {
     PgTypeAddValue,
     PgTypeAddBefore,
     PgTypeRenameValue,
+    PgTypeAddAfter,
+    PgTypeRenameValueNew,
     Json,
     PgArrayElem,
     UpdateSet,
@@ -51,7 +53,7 @@ pub enum Pos {
     CaseThen,
 }
 
-pub const ALL_POS: [Pos; 20] = [
+pub const ALL_POS: [Pos; 22] = [
     Pos::ValueToString,
     Pos::SelectVal,
     Pos::Constant,
@@ -72,6 +74,8 @@ pub const ALL_POS: [Pos; 20] = [
     Pos::UpdateSet,
     Pos::InsertValue,
     Pos::CaseThen,
+    Pos::PgTypeAddAfter,
+    Pos::PgTypeRenameValueNew,
 ];
 
 #[derive(Serialize, Deserialize, Clone, Debug, PartialEq, Eq, Hash)]
@@ -101,7 +105,7 @@ pub fn applicable(pos: Pos, d: Dialect, p: &Payload) -> bool {
         Pos::OrderField | Pos::InList | Pos::UpdateSet | Pos::CaseThen => true,
         Pos::LikeEscape => matches!(p, Payload::Char(_)),
         Pos::ColumnComment | Pos::TableComment | Pos::MysqlEnumLabel => text && d == Dialect::Mysql,
-        Pos::PgTypeCreate | Pos::PgTypeAddValue | Pos::PgTypeAddBefore | Pos::PgTypeRenameValue => text && d == Dialect::Postgres,
+        Pos::PgTypeCreate | Pos::PgTypeAddValue | Pos::PgTypeAddBefore | Pos::PgTypeRenameValue | Pos::PgTypeAddAfter | Pos::PgTypeRenameValueNew => text && d == Dialect::Postgres,
         Pos::Json => text,
         Pos::PgArrayElem => d == Dialect::Postgres && !matches!(p, Payload::Bytes(_)),
     }
@@ -179,6 +183,8 @@ fn render(pos: Pos, d: Dialect, p: &Payload) -> String {
         Pos::PgTypeAddValue => Type::alter().name(a("ty")).add_value(a(&text)).to_string(PostgresQueryBuilder),
         Pos::PgTypeAddBefore => Type::alter().name(a("ty")).add_value(a("newv")).before(a(&text)).to_string(PostgresQueryBuilder),
         Pos::PgTypeRenameValue => Type::alter().name(a("ty")).rename_value(a(&text), a("newv")).to_string(PostgresQueryBuilder),
+        Pos::PgTypeAddAfter => Type::alter().name(a("ty")).add_value(a("newv")).after(a(&text)).to_string(PostgresQueryBuilder),
+        Pos::PgTypeRenameValueNew => Type::alter().name(a("ty")).rename_value(a("oldv"), a(&text)).to_string(PostgresQueryBuilder),
         Pos::Json => {
             let q = Query::select().expr(Expr::val(Value::Json(Some(Box::new(serde_json::Value::String(text.clone())))))).to_owned();
             with_backend!(d, b => q.to_string(b))
